@@ -144,14 +144,48 @@ def rule_verdict(ctx):
     if gterm is None:
       ctx.violation(R, where, "verdict predicate", "no BatchGCD result is consulted")
       continue
-    bound = sym.mk("attr", P("param", "self"), "_gcd_bound")
     if spec_name == "ne1":
       spec = lambda v: v[gterm] != 1
       spec_txt = "gcds[i] != 1"
     else:
+      # instance attributes are replaced by what the constructor stores in them, so the predicate is read in terms of the configured bound
+      # itself (the constructor parameter), whatever attribute(s) it is kept in
+      init = b.cls.methods.get("__init__")
+      sub = {}
+      bound = None
+      if init is not None:
+        wi = sym.Walker(repo, init)
+        wi.run()
+        ip = [q for q in init.params() if q != "self"]
+        bound = P("param", ip[0]) if ip else None
+        for e in wi.events:
+          if e.kind == "setattr" and as_poly(e.data["base"]) == P("param", "self") and not isinstance(e.data["value"], (Seq, Const, tuple)):
+            sub[sym.mk("attr", P("param", "self"), e.data["attr"]).as_atom()] = as_poly(e.data["value"])
+      if bound is None:
+        ctx.incomplete(R, where, "flag <=> gcd >= configured bound", "constructor parameter for the bound not found")
+        continue
+
+      def subst_cond(c):
+        if c[0] == "cmp":
+          out = []
+          for x in (c[2], c[3]):
+            if isinstance(x, (Seq, Const, tuple)):
+              out.append(x)
+              continue
+            px = as_poly(x)
+            for at, val in sub.items():
+              px = sym.rebuild(px.deep_subst(at, val))
+            out.append(px)
+          return ("cmp", c[1], out[0], out[1])
+        if c[0] in ("and", "or"):
+          return (c[0], [subst_cond(x) for x in c[1]])
+        if c[0] == "not":
+          return ("not", subst_cond(c[1]))
+        return c
+      pos = [[(subst_cond(c), pol) for c, pol in path] for path in pos]
       spec = lambda v: v[gterm] >= v[bound]
-      spec_txt = "gcds[i] >= self._gcd_bound"
-    verdict, detail = regions.equivalent_dnf(pos, spec, main=gterm)
+      spec_txt = "gcds[i] >= configured bound"
+    verdict, detail = regions.equivalent_dnf(pos, spec, main=gterm, extra_atoms=[bound.as_atom()] if spec_name != "ne1" else ())
     ctx.record(R, where, "flag <=> " + spec_txt, verdict, detail)
     # recorded value is the gcd that was tested
     att = b.calls(T.ATTACH_FACTORS)
